@@ -7,7 +7,7 @@ Extraction Language OCaml.
 Extraction "../ocaml/v3_model.ml"
   auth_new as_key_type alg_p2m alg_localize alg_sign get_master_key get_localized_key key_size
   priv_new priv_as_localized priv_encrypt priv_decrypt priv_decrypt_bytes
-  v3_new v3_set_keys v3_push_pdu v3_unwrap v3_recv_loop with_request_id next_id install_keys
+  v3_new v3_set_keys v3_set_keys_st with_user v3_push_pdu v3_unwrap v3_recv_loop with_request_id next_id install_keys
   v3_decode scoped_decode pdu_decode push_scoped empty_buffer
   Modes.cbc_encrypt Modes.cbc_decrypt Modes.cfb_encrypt Modes.cfb_decrypt DES.des_encrypt_block DES.des_decrypt_block
   AES.aes128_encrypt_block MD5.md5 SHA1.sha1
